@@ -6,6 +6,7 @@ from .. import inject
 
 import usim
 from usim import time, Concurrent
+from usim.typing import Task
 
 PROPERTY = 'C16'
 LEVEL = 'fault_enumeration'
@@ -60,6 +61,13 @@ def make_case(seed, index, tier):
             # an activity that shares the fate of another task: it fails with that task's
             # TaskCancelled - a failure that scopes do not wrap in Concurrent
             rng.choice(acts)['fail'] = 'join'
+        if acts and rng.random() < 0.2:
+            # arguments that are Task objects: already running in a scope of the caller's
+            for act in rng.sample(acts, min(len(acts), rng.choice([1, 1, 2]))):
+                if act['fail'] is False:
+                    act['owned'] = True
+                    if rng.random() < 0.4:
+                        act['fail'] = 'cancelled'    # somebody cancels that task meanwhile
     else:
         spec['count'] = rng.choice([0, 1, 1, 2, n, None, None, n + 1, max(0, n - 1)])
         spec['work'] = rng.choice([0, 0, 0.5, 1, 2])
@@ -112,6 +120,8 @@ def build_for(case):
                     else:
                         await usim.instant
                     arena.log(name, 'mid')
+                    if act['fail'] == 'cancelled':
+                        await usim.eternity
                     if act['d2']:
                         await (time + act['d2'])
                     if act['fail'] == 'join':
@@ -135,20 +145,38 @@ def build_for(case):
         async def sleeper():
             await usim.eternity
 
+        async def canceller(number, task, delay):
+            if delay:
+                await (time + delay)
+            else:
+                await usim.instant
+            arena.log('act%d' % number, 'raise')
+            task.cancel('no longer needed')
+
         async def consumer():
-            if any(act['fail'] == 'join' for act in spec['acts']):
+            if any(act['fail'] == 'join' or act.get('owned') for act in spec['acts']):
                 async with usim.Scope() as outer:
                     for number, act in enumerate(spec['acts']):
                         if act['fail'] == 'join':
                             victims[number] = outer.do(sleeper(), volatile=True)
-                    await consumer_body()
+                    await consumer_body(outer)
             else:
-                await consumer_body()
+                await consumer_body(None)
 
-        async def consumer_body():
+        async def consumer_body(outer):
             if spec['offset']:
                 await (time + spec['offset'])
-            acts = [make_act(number, act) for number, act in enumerate(spec['acts'])]
+            acts = []
+            for number, act in enumerate(spec['acts']):
+                if act.get('owned'):
+                    task = outer.do(make_act(number, act))
+                    acts.append(task)
+                    checker.stats['task_arguments'] = checker.stats.get('task_arguments', 0) + 1
+                    if act['fail'] == 'cancelled':
+                        victims[number] = task
+                        outer.do(canceller(number, task, act['d1'] + act['d2']), volatile=True)
+                else:
+                    acts.append(make_act(number, act))
             checker.started = time.now
             arena.log('consumer', 'call')
             try:
@@ -161,6 +189,9 @@ def build_for(case):
                     except usim.TaskCancelled as exc:
                         checker.result = ('taskcancelled', [exc.subject is task for task
                                                             in victims.values()], time.now)
+                    except usim.TaskClosed as exc:
+                        # not a failure of any activity: the by-product of aborting a bystander
+                        checker.result = ('taskclosed', [], time.now)
                 else:
                     items = []
                     arena.log('consumer', 'ask')
@@ -192,7 +223,8 @@ def build_for(case):
                 checker.finished = len(arena.sess.events)
                 arena.log('consumer', 'left')
                 for act in acts:
-                    act.close()
+                    if not isinstance(act, Task):
+                        act.close()
         return [('consumer', consumer)], (), checker
     return build
 
@@ -215,9 +247,11 @@ def check(sess, arena, checker, outcome, plan):
     if struck:
         checker.stats['struck_runs'] += 1
     # ---- nothing of the activities happens after the consumer has left ----
+    owned = {'act%d' % number for number, act in enumerate(acts) if act.get('owned')}
     if checker.finished is not None:
         for event in sess.events[checker.finished:]:
-            if str(event[1]).startswith('act') and event[2] != 'closed':
+            if str(event[1]).startswith('act') and event[2] != 'closed' \
+                    and event[1] not in owned:
                 checker.violation('activity-after-consumer-left',
                                   '%s logged %r at %r after the caller had left' % (
                                       event[1], event[2], event[0]))
@@ -232,14 +266,21 @@ def check(sess, arena, checker, outcome, plan):
         if spec['how'] == 'collect':
             checker.stats['collects_judged'] += 1
             failing = [number for number, act in enumerate(acts) if act['fail']]
-            joins = [number for number in failing if acts[number]['fail'] == 'join']
+            joins = [number for number in failing
+                     if acts[number]['fail'] in ('join', 'cancelled')]
             if joins:
                 checker.stats['collect_join_failures'] = checker.stats.get(
                     'collect_join_failures', 0) + 1
                 first_fail = min(acts[i]['d1'] + acts[i]['d2'] for i in failing) + t0
                 first_join = min(acts[i]['d1'] + acts[i]['d2'] for i in joins) + t0
                 plain = [acts[i]['d1'] + acts[i]['d2'] + t0 for i in failing if i not in joins]
-                if result[0] not in ('concurrent', 'taskcancelled'):
+                if result[0] == 'taskclosed':
+                    checker.violation('collect-raised-closing-of-bystander',
+                                      'an activity fails with the TaskCancelled of a task it '
+                                      'awaits; collect raised the TaskClosed of another '
+                                      'activity that was aborted because of that, not the '
+                                      'failure')
+                elif result[0] not in ('concurrent', 'taskcancelled'):
                     checker.violation('collect-failure-not-raised',
                                       'activities %s fail (%s by the TaskCancelled of a task '
                                       'they await) but collect returned %r' % (
@@ -259,7 +300,8 @@ def check(sess, arena, checker, outcome, plan):
                                           'collect failed at %r, first failure at %r' % (
                                               result[2], first_fail))
                     late = [ev for ev in sess.events
-                            if str(ev[1]).startswith('act') and ev[0] > first_fail]
+                            if str(ev[1]).startswith('act') and ev[0] > first_fail
+                            and ev[1] not in owned]
                     if late:
                         checker.violation('collect-others-not-aborted',
                                           'event %r after the failure at %r' % (late[0], first_fail))
@@ -281,7 +323,8 @@ def check(sess, arena, checker, outcome, plan):
                                           'collect failed at %r, first failure at %r' % (
                                               result[2], first_fail))
                     late = [ev for ev in sess.events
-                            if str(ev[1]).startswith('act') and ev[0] > first_fail]
+                            if str(ev[1]).startswith('act') and ev[0] > first_fail
+                            and ev[1] not in owned]
                     if late:
                         checker.violation('collect-others-not-aborted',
                                           'event %r after the failure at %r' % (late[0], first_fail))
@@ -352,6 +395,19 @@ def check(sess, arena, checker, outcome, plan):
                         checker.violation('first-wrong-time', 'item %d (%r) yielded at %r, '
                                           'completed at %r, asked for at %r' % (
                                               position, value, when, completed, asked))
+    if owned and outcome[0] == 'ok' and not struck and checker.finished is not None:
+        # a task that was merely handed to collect() belongs to its own scope: whatever happens
+        # to the collect, it is not closed and runs to its end (unless it was cancelled)
+        for number, act in enumerate(acts):
+            if act.get('owned') and act['fail'] is False:
+                name = 'act%d' % number
+                logged = [ev[2] for ev in sess.events if ev[1] == name]
+                checker.stats['task_arguments_followed'] = checker.stats.get(
+                    'task_arguments_followed', 0) + 1
+                if 'closed' in logged or 'done' not in logged:
+                    checker.violation('task-argument-closed',
+                                      'task %s handed to collect() logged %s: it was closed '
+                                      'together with the collect' % (name, logged))
     found += [dict(v) for v in sess.violations if v['mechanism'].startswith('c16:')]
     return found
 
